@@ -89,6 +89,8 @@ var atoms = map[string]val{
 	"pf": {k: "F", f: 1.5}, "pi": {k: "I", i: 4}, // the same kinds behind a pointer (*float64, *int)
 	"tt()": {k: "B", b: true}, "ff()": {k: "B", b: false},
 	"vl": {k: "L"},
+	// other spellings and sizes of integers: a leading zero is decimal all the same; neighbours beyond 2^53 differ
+	"010": {k: "I", i: 10}, "9007199254740993": {k: "I", i: 9007199254740993}, "vbig": {k: "I", i: 9007199254740992},
 }
 
 var listVals = []int{1, 2, 3}
@@ -471,7 +473,7 @@ func (c *Case) Exec(t *eng.T) {
 	var tt, ff int
 	ctx := pongo2.Context{
 		"vi": 5, "vf": 2.5, "vs": "xa", "vl": []int{1, 2, 3},
-		"pf": &ptrF, "pi": &ptrI,
+		"pf": &ptrF, "pi": &ptrI, "vbig": 9007199254740992,
 		"tt": func() bool { tt++; return true },
 		"ff": func() bool { ff++; return false },
 	}
@@ -626,11 +628,12 @@ func run(r *eng.Runner) {
 	}
 	at := atomList(false)
 	ptrs := []*Expr{{Atom: "pf"}, {Atom: "pi"}} // a *float64 and a *int from the context
-	r.Group("ops<=1", "c07.case", "all expression trees with 0..1 operators over 15 binary + 2 unary operators and 19 atoms (incl. a *float64 and a *int), every spelling/spacing style, printed and in if-position")
+	ptrs = append(ptrs, &Expr{Atom: "010"}, &Expr{Atom: "9007199254740993"}, &Expr{Atom: "vbig"})
+	r.Group("ops<=1", "c07.case", "all expression trees with 0..1 operators over 15 binary + 2 unary operators and 22 atoms (incl. a *float64 and a *int, an integer literal with a leading zero, two neighbouring integers beyond 2^53), every spelling/spacing style, printed and in if-position")
 	for n := 0; n <= 1; n++ {
 		trees(n, append(append([]*Expr{}, at...), ptrs...), binOps, unOps, func(e *Expr) bool { emit(r, e, all); return !r.Stopped() })
 	}
-	r.Group("ops=2-pointers", "c07.case", "all trees with exactly 2 operators over the pointer atoms and 2, 0.5, vi")
+	r.Group("ops=2-pointers", "c07.case", "all trees with exactly 2 operators over the pointer atoms, the leading-zero literal, the two big integers and 2, 0.5, vi")
 	trees(2, append([]*Expr{{Atom: "2"}, {Atom: "0.5"}, {Atom: "vi"}}, ptrs...), binOps, unOps, func(e *Expr) bool { emit(r, e, quickStyles[:1]); return !r.Stopped() })
 	r.Group("ops=2", "c07.case", fmt.Sprintf("all expression trees with exactly 2 operators over the full operator set and 17 atoms, %d spelling/spacing styles", len(styles)))
 	trees(2, at, binOps, unOps, func(e *Expr) bool { emit(r, e, styles); return !r.Stopped() })
